@@ -103,8 +103,16 @@ TRUSTED = [
     "call layer: inf / -inf parameters are sent to the model as a rational beyond every sample (theorems clip_limit_beyond_samples, "
     "zcross_all_inside, unwrap_identity: every such value gives the same output); an endless input is read through take / islice and the "
     "model gets the samples read (all tools are causal; laziness itself is property C02)",
-    "envelope call layer: Float twin, the one-pole design lowpass.pole is ALV.C13.lowpassPole (verified by property C13) evaluated at the "
-    "given cutoff or at the documented default pi/512; compared with tolerance 1e-9",
+    "envelope call layer: Float twin of the generic (TrigField) term ALV.C20.envelopePoleCall, whose design is ALV.C13.lowpassPole itself; "
+    "at R it is proved to be the one-pole recursion y[n] = (1-R) u[n] + R y[n-1] with the documented R and cutoff pi/512 "
+    "(envelope_pole_eq_spec, envelope_pole_contract); the driver also evaluates that recursion (envelopeSpec) at Float; both compared "
+    "with tolerance 1e-9.  A cutoff given per sample (list / tuple / iterator / Stream, shorter or longer than the input): entry "
+    "envelope_var, model envelopeVarCall = spec envelopeVarSpec at R (envelope_var_eq_spec), constant stream = constant cutoff "
+    "(envelope_var_constant, also compared on the real code)",
+    "exactness: unwrap on Fraction / int inputs with a given step is compared with tolerance 0 (theorem rat_unwrap_exact), including steps "
+    "and samples with non-power-of-two denominators and jumps beyond 2**53 with int samples kept as ints; a non-zero memory value `zero` "
+    "is drawn for every maverage strategy, the default maverage(size), amdf and accumulate.z (theorems maverageCall_eq_spec, "
+    "maverage_window_starts_full_of_zero, amdfCall_eq_spec, accumulate_z_memory)",
     "hand-written Lean models ALV/Model/C20.lean of lazy_analysis.{maverage.*,amdf,envelope.*,clip,zcross,unwrap} and "
     "lazy_itertools.accumulate.* (modelled, not verified: collections.deque, itertools.accumulate, the generator protocol, "
     "Fraction/float arithmetic and Python's `%`)",
@@ -120,6 +128,9 @@ ASSUMPTIONS = [
     "size >= 1 (1./0 raises), lag >= 0 with zero=0 or lag >= 1, step > 0, hysteresis >= 0 for the closed zcross "
     "characterisation (negative hysteresis is only tied to the model)",
     "float regime (non power-of-two sizes or non-dyadic samples, envelope): compared with relative tolerance 1e-9",
+    "still outside the model: size / lag spelled as float or Fraction (deque / fir: TypeError, recursive: integral floats work, Fractions "
+    "ValueError; amdf accepts a float lag), non-number samples (str samples are concatenated by accumulate), a mid-stream exception "
+    "followed by continued reads, the default-step (double 2*pi) unwrap of jumps beyond 2**53",
 ]
 MANIFEST = {
     "text": ("Lean 4 theorems, for all inputs / sizes / lags / limits / thresholds: maverage.deque = .recursive = .fir = mean "
@@ -702,6 +713,8 @@ def impl(c):
                 "z": _run(zf)}
     if e == "coeffs":
         def co(f):
+            if not isinstance(f, al.LinearFilter):      # the strategy is no longer the filter object the model describes
+                return {"err": "not a LinearFilter: %s" % type(f).__name__}
             den = list(f.denominator)
             if den[0] != 1:
                 return {"err": "a0 != 1"}
@@ -879,6 +892,9 @@ def compare(c, io, drv):
         _cmp(out, "spec", "amdf vs moving average of |x[n]-x[n-lag]|", io["out"], drv["spec"], tol)
     elif e == "coeffs":
         for k in ("recursive", "fir", "lag", "acc"):
+            if k not in io:
+                out.append(("model", "coefficients of %s: the impl side failed: %s" % (k, _s(io))))
+                continue
             if "err" in io[k]:
                 out.append(("model", "coefficients of %s: %s" % (k, io[k]["err"])))
                 continue
